@@ -453,13 +453,19 @@ impl Vfs {
         let index = self.allocate_fs_idx().map_err(VfsError::FsIndex)?;
         // Store per-mount id_mapping before insert_mount_locked so that
         // convert_entry during insertion can use it.
-        if id_mapping.is_some() {
+        // Always (re)write the slot: a previous occupant that was over-mounted, or a mount that
+        // failed after this point, must not leave its mapping behind for the next user of the index.
+        {
             let mut mappings = self.mount_id_mappings.load().deref().deref().clone();
             mappings[index as usize] = id_mapping;
             self.mount_id_mappings.store(Arc::new(mappings));
         }
-        self.insert_mount_locked(fs, entry, index, path)
-            .map_err(VfsError::Mount)?;
+        if let Err(e) = self.insert_mount_locked(fs, entry, index, path) {
+            let mut mappings = self.mount_id_mappings.load().deref().deref().clone();
+            mappings[index as usize] = None;
+            self.mount_id_mappings.store(Arc::new(mappings));
+            return Err(VfsError::Mount(e));
+        }
 
         Ok(index)
     }
